@@ -47,6 +47,7 @@ func (a dtAtoms) I(name string) int64 {
 	}
 	return v
 }
+
 // canonEq names an equality atom "X==Y" with its operands in the engine's fixed order (nil stays on the right).
 func canonEq(name string) string {
 	suffix := ""
